@@ -161,13 +161,13 @@ StreamsManagerBase<MAX_STREAMS> {
     /// Signals all `Stream`s to end as soon as possible (making them reach their "out of elements" phase).\
     /// Any parked streams are awaken, so they may end as well.
     pub fn cancel_all_streams(&self) {
-        let used_streams = unsafe { &* self.used_streams.get() };
-        for stream_id in used_streams.iter() {
-            if *stream_id == u32::MAX {
-                break
+        // goes through every stream still told to keep running instead of iterating `used_streams`: that list is rewritten in place
+        // whenever a stream gets dropped -- which is what the streams we cancel here do, so iterating it would skip some of them
+        for stream_id in 0..MAX_STREAMS as u32 {
+            if self.keep_stream_running(stream_id) {
+                #[cfg(feature = "verif")] crate::verif::point(crate::verif::SM_CANCEL_ALL_EACH);
+                self.cancel_stream(stream_id);
             }
-            #[cfg(feature = "verif")] crate::verif::point(crate::verif::SM_CANCEL_ALL_EACH);
-            self.cancel_stream(*stream_id);
         }
     }
 
